@@ -428,6 +428,8 @@ def _as_input(rng, m):
     D = m["D"]
     if m["kind"] == "sparse":
         fmt = rng.choice(["coo", "csr", "csc", "bsr", "coo", "csr-raw", "csc-raw", "dia", "lil"])
+        if D.size > 10000 and fmt in ("dia", "lil", "bsr"):
+            fmt = "csc"     # (thousands of diagonals / python lists: pointless on the big shapes)
         i, j = np.nonzero(D)
         v = D[i, j]
         trip = [[int(a), int(b), c] for a, b, c in zip(i.tolist(), j.tolist(), v.tolist())]
@@ -1579,6 +1581,10 @@ def correspondence(ctx):
                                 "shapes": [list(m["D"].shape) for m in case["mats"]], "bytes": len(impl) // 2})
         _ascii_reader_streams(ctx, op4, drv, sc, ascii_texts)
         _write_args_streams(ctx, op4, drv, sc)
+        hist = {}
+        for d_ in ctx.disagreements:
+            hist[d_["stream"]] = hist.get(d_["stream"], 0) + 1
+        ctx.extra["disagreement_streams"] = hist
         ctx.extra["first_disagreements"] = [
             {"stream": d["stream"], "impl": str(d["impl"])[:400], "model": str(d["model"])[:400],
              "input": {k: v for k, v in d["input"].items() if k != "mats"} if isinstance(d["input"], dict) else d["input"],
